@@ -10,6 +10,7 @@ CONSTANTS
   MaxK = 2
   SteadyT = 6
   SolveOK <- MC_SolveThorough
+  EditOK <- MC_EditNone
   AsFound_SubstitutesVarWithIC = FALSE
 INVARIANT TypeOK
 INVARIANT C03_SameSolution
